@@ -28,7 +28,7 @@ ASSUMPTIONS = [
     "Poisson schedule: only strict monotonicity is claimed (no distributional claim)",
 ]
 BUDGET = {"quick": 3000, "thorough": 20000}
-REQUIRED_CLASSES = {"straddles-boundary": 100, "weight-change": 100, "ramp-up": 50, "time-based": 300}
+REQUIRED_CLASSES = {"straddles-boundary": 100, "weight-change": 100, "ramp-up": 50, "time-based": 300, "behind-schedule": 100}
 TOL = 1e-9
 
 
@@ -92,6 +92,7 @@ def run_case(case, obs):
     total_clients = case.get("total_clients", c + goff)
     straddle = False
     weight_change = False
+    behind = False
     w_it = case.get("warmup_iterations") or 0
     wtp = case.get("warmup_time_period") or 0
     for ci in range(c):
@@ -197,6 +198,15 @@ def run_case(case, obs):
         elif n:
             for k, h in enumerate(handed):
                 obs.check(h["s"] == 0, "unthrottled-scheduled", f"{tag}: unthrottled request {k} scheduled at {h['s']}")
+        # ------------------------------------------------------------------ the schedule is what is executed
+        # a request is issued at its scheduled time (relative to the client's start), or at once if the client is already behind: a slow
+        # response delays what follows but never displaces the schedule
+        for k, (h, q) in enumerate(zip(handed, reqs)):
+            due = max(h["pc"], start_pc + h["s"])
+            obs.check(_eq(q["pc_enter"], due, 1e-9), "issued-off-schedule",
+                      f"{tag}: request {k} scheduled at +{h['s']}, handed out at +{h['pc'] - start_pc}, issued at +{q['pc_enter'] - start_pc}")
+            if h["s"] > 0 and h["pc"] > start_pc + h["s"] + TOL:
+                behind = True
     obs.cls(mode if mode != "time" else "time-based")
     if straddle:
         obs.cls("straddles-boundary")
@@ -204,4 +214,6 @@ def run_case(case, obs):
         obs.cls("weight-change")
     if tp is not None:
         obs.cls("throttled")
+    if behind:
+        obs.cls("behind-schedule")
     obs.mark_nontrivial(straddle or weight_change or (mode == "iterations" and w_it > 0 and c >= 2))
